@@ -75,7 +75,7 @@ func buildChain(c polChain, emb Embedding) filter.Chain {
 				for _, pl := range cd.PLs {
 					ps := []*bnet.Prefix{}
 					for _, x := range pl {
-						ps = append(ps, emb.Pfx(bitsOf(x)))
+						ps = append(ps, emb.Pfx(bitsOf(x)).Dedup())
 					}
 					pls = append(pls, filter.NewPrefixList(ps...))
 				}
@@ -94,7 +94,8 @@ func buildChain(c polChain, emb Embedding) filter.Chain {
 					default:
 						panic("harness: matcher " + rf.M)
 					}
-					rfs = append(rfs, filter.NewRouteFilter(emb.Pfx(bitsOf(rf.Pat)), m))
+					// patterns are deduplicated (shared pointers) so that RouteFilter.equal, which compares pointers, can succeed
+					rfs = append(rfs, filter.NewRouteFilter(emb.Pfx(bitsOf(rf.Pat)).Dedup(), m))
 				}
 				conds = append(conds, filter.NewTermCondition(pls, rfs))
 			}
